@@ -11,6 +11,8 @@ import (
 	hg "github.com/mosaicnetworks/babble/src/hashgraph"
 	"github.com/mosaicnetworks/babble/src/peers"
 	"verif/harness/ev"
+	"verif/harness/mon"
+	"verif/harness/sched"
 	"verif/harness/sim"
 )
 
@@ -265,8 +267,49 @@ func init() {
 				}
 			}
 		}
+		// (4) the same decisions inside running networks whose validator set changes: whenever a node offers a block as
+		// fast-sync anchor (the one place where "trusted" has consequences) it must carry valid signatures of more than
+		// one third of the distinct validators of the block's round, and every signature a node records must be by a
+		// member of that round's set (C09's monitor, on the membership seeds, with the leaving validator signing on)
+		clusterExecs, clusterSteps := 0, 0
+		{
+			type run struct {
+				sc   string
+				devs []sched.Dev
+			}
+			runs := []run{{scLeave4, nil}, {scTwoLeaves, nil}, {scJoinLeave, nil}, {scRejoin4, nil}, {scJoin3, nil}}
+			for pos := 20; pos <= 84; pos += 8 {
+				runs = append(runs, run{scLeave4, []sched.Dev{{Pos: pos, Alt: sched.Action{K: "BZ", A: 3, Tx: "valid"}, Ins: true}}})
+			}
+			for _, r := range runs {
+				sc := sched.ScenarioByName(r.sc)
+				x := sched.NewExec(sc, sched.MonitorFactory([]string{"C09b3"}, &mon.Stats{}))
+				x.NoDigest = true
+				devAt := map[int][]sched.Dev{}
+				for _, d := range r.devs {
+					devAt[d.Pos] = append(devAt[d.Pos], d)
+				}
+				for pos, a := range sc.Seed {
+					for _, d := range devAt[pos] {
+						x.Step(d.Alt)
+					}
+					x.Step(a)
+				}
+				x.FairSuffix(40)
+				clusterExecs++
+				clusterSteps += x.Steps
+				for _, v := range x.Viol {
+					if v.Key == "anchor-undersigned" || v.Key == "signer-not-in-round-set" {
+						viol("cluster:"+v.Key, fmt.Sprintf("%s: %s", r.sc, v.What), v.Replay)
+					}
+				}
+				x.Close()
+			}
+		}
 		sort.Slice(rep.Violations, func(i, j int) bool { return rep.Violations[i].Key < rep.Violations[j].Key })
 		cov := rep.Coverage
+		cov["cluster_executions_with_changing_validator_sets"] = clusterExecs
+		cov["cluster_steps"] = clusterSteps
 		cov["states"] = states + bfsStates
 		cov["transitions"] = transitions + bfsTrans + decisions
 		cov["traces_validated_against_impl"] = transitions + bfsTrans + decisions
@@ -274,7 +317,7 @@ func init() {
 		cov["distinct_nontrivial"] = nontrivial + bfsStates
 		cov["exhaustive"] = true
 		cov["samples"] = samples
-		cov["rule"] = fmt.Sprintf("every n in 1..%d on a real PeerSet grown by WithNewPeer (non-trivial: n not divisible by 3, where floor/ceil formulas differ); BFS over all WithNewPeer/WithRemovedPeer sequences over a 5-key universe to depth %d with state = ordered member list (%d set states, %d transitions) against a list model; CheckBlock/SetAnchorBlock decisions with 0..n valid distinct signatures for n=1..10 (%d decisions)", maxN, depth, bfsStates, bfsTrans, decisions)
+		cov["rule"] = fmt.Sprintf("every n in 1..%d on a real PeerSet grown by WithNewPeer (non-trivial: n not divisible by 3, where floor/ceil formulas differ); BFS over all WithNewPeer/WithRemovedPeer sequences over a 5-key universe to depth %d with state = ordered member list (%d set states, %d transitions) against a list model; CheckBlock/SetAnchorBlock decisions with 0..n valid distinct signatures for n=1..10 (%d decisions); anchor blocks offered and signatures recorded by the nodes of 14 runs with leaves, joins, a re-join and a leaving validator that keeps signing (> 1/3 of the distinct validators of the block's round; signers members of that round's set)", maxN, depth, bfsStates, bfsTrans, decisions)
 		rep.Assumptions = []string{"peers for the 1..100000 sweep use distinct synthetic 65-byte keys (no EC arithmetic needed: only set size matters)"}
 		return rep.Finish()
 	}
